@@ -473,6 +473,15 @@ class Program:
                 continue
             if i.op == "icmp":
                 l, r = i.a
+                # both sides constant once phis are resolved for this path: fold the branch (return codes of spliced helpers)
+                lc, rc2 = self._resolve_const(f, l, phi_env), self._resolve_const(f, r, phi_env)
+                if lc is not None and rc2 is not None:
+                    bits = 64
+                    res = {"eq": lc == rc2, "ne": lc != rc2, "slt": lc < rc2, "sle": lc <= rc2, "sgt": lc > rc2, "sge": lc >= rc2,
+                           "ult": (lc % (1 << bits)) < (rc2 % (1 << bits)), "ule": (lc % (1 << bits)) <= (rc2 % (1 << bits)),
+                           "ugt": (lc % (1 << bits)) > (rc2 % (1 << bits)), "uge": (lc % (1 << bits)) >= (rc2 % (1 << bits))}.get(i.pred)
+                    if res is not None:
+                        return ("const", res == pol)
                 rc = self.const_int(r)
                 if rc == 0 and i.pred in ("ne", "eq") and self._is_boolish(f, l):
                     o = l
@@ -489,6 +498,28 @@ class Program:
                 return (("cmp", "f" + i.pred, self.term(f, i.a[0]), self.term(f, i.a[1])), pol)
             return (("truth", self.term(f, o)), pol)
         raise AnalysisBroken("condition normaliser did not terminate in %s" % f.name)
+
+    def _resolve_const(self, f, o, env):
+        """integer constant an operand has on this path (phis resolved through env, casts followed), else None"""
+        for _ in range(12):
+            c = self.const_int(o)
+            if c is not None:
+                return c
+            if self.is_null(o):
+                return 0
+            if not isinstance(o, int) or o < f.nparams:
+                return None
+            i = f.insts[o]
+            if i.op == "phi":
+                if env is not None and i.id in env and env[i.id] != o:
+                    o = env[i.id]
+                    continue
+                return None
+            if i.op in ("zext", "sext", "trunc", "bitcast"):
+                o = i.a[0]
+                continue
+            return None
+        return None
 
     def _is_boolish(self, f, o):
         """operand is (a widening of) an i1 value or a bool-typed call/load"""
